@@ -67,6 +67,29 @@ def handle (j : Json) : Except String Json := do
       | .ok f => f.getNat?
       | .error _ => pure 0
     pure (okJson [("graph", graphToJson (Dna.strandGraphFrom first names labels circ))])
+  | "genparams" =>
+    -- gen_params up to MapToMolecule: source ∈ {"seq", "seq_file"}, dsdna flag
+    let names ← (← j.getObjVal? "names").getArr?
+    let names ← names.toList.mapM (·.getStr?)
+    let source ← (← j.getObjVal? "source").getStr?
+    let dsdna ← (← j.getObjVal? "dsdna").getBool?
+    let inp ← match source with
+      | "seq" => pure (Dna.SeqInput.seq names)
+      | "seq_file" => do
+        let labels ← (← j.getObjVal? "labels").getArr?
+        let labels ← labels.toList.mapM attrsOfJson
+        let circ ← match j.getObjVal? "circ" with
+          | .ok Json.null => pure none
+          | .ok c => (attrsOfJson c).map some
+          | .error _ => pure none
+        let first ← match j.getObjVal? "first" with
+          | .ok f => f.getNat?
+          | .error _ => pure 0
+        pure (Dna.SeqInput.seqFile first names labels circ)
+      | _ => throw s!"unknown source {source}"
+    match Dna.genParamsDsdna Tables.baseLibrary inp dsdna with
+    | .ok g => pure (okJson [("residues", Json.arr (g.nodes.map (fun n => Json.arr #[toJson n.resid, Json.str n.resname])).toArray)])
+    | .error e => pure (errJson e)
   | _ => throw s!"unknown op {op}"
 
 end PolyplyVerif.Driver.C19
